@@ -1,25 +1,25 @@
 package main
 
 import (
-	"sort"
 	"bytes"
 	"context"
 	"fmt"
 	"os"
 	"os/exec"
 	"path/filepath"
+	"sort"
 	"strings"
 	"sync"
 	"time"
 )
 
 type SolverOpts struct {
-	WorkDir   string
-	TimeoutS  int
-	Seed      int
-	Confirm   bool // thorough: confirm unsat with a second solver
-	Models    bool
-	Parallel  int
+	WorkDir  string
+	TimeoutS int
+	Seed     int
+	Confirm  bool // thorough: confirm unsat with a second solver
+	Models   bool
+	Parallel int
 }
 
 // relevantAxioms selects prelude axioms that share an uninterpreted symbol with the query (fixpoint).
